@@ -249,3 +249,23 @@ Example outcome_examples :
   outcome_ok 0 [] [CI 3; CI 2] [5] [] = true /\
   outcome_ok 7 [] [MRN 1; MRN 10; MRN 100] [124] [] = true /\ outcome_ok 7 [] [MRN 1; MRN 10; MRN 100] [221] [] = false.
 Proof. vm_compute. repeat split. Qed.
+
+(* ---- consume_all (set_impl::local_consume_all): while the local store is not empty, take the first element, erase that one
+   element (by position, not by key), hand it to the callback.  [store]: the rank's elements in iteration order, copies adjacent. *)
+Fixpoint consume_loop (fuel : nat) (store calls : list Z) : list Z * list Z :=
+  match fuel, store with
+  | S f, x :: rest => consume_loop f rest (calls ++ [x])
+  | _, _ => (store, calls)
+  end.
+Definition consume_all (store : list Z) : list Z * list Z := consume_loop (length store) store [].
+
+Lemma consume_loop_spec fuel : forall store calls, (length store <= fuel)%nat -> consume_loop fuel store calls = ([], calls ++ store).
+Proof.
+  induction fuel as [|f IH]; intros store calls H.
+  - destruct store; [cbn; rewrite app_nil_r; reflexivity|cbn in H; lia].
+  - destruct store as [|x rest]; [cbn; rewrite app_nil_r; reflexivity|]. cbn [consume_loop]. rewrite IH by (cbn in H; lia).
+    rewrite <- app_assoc. reflexivity.
+Qed.
+(* every element - every copy of a multiset key - is handed to the callback exactly once, in order, and nothing is left *)
+Theorem consume_all_exactly_once store : consume_all store = ([], store).
+Proof. unfold consume_all. rewrite consume_loop_spec by lia. reflexivity. Qed.
